@@ -65,9 +65,11 @@ func checkParseFacts(c ParseCase) (*Violation, parseFacts) {
 	select {
 	case r := <-ch:
 		return r.v, r.f
-	case <-time.After(20 * time.Second):
-		// the only wall-clock signal in the suite: >10^5 x the normal cost of a parse
-		return violf("Parse and follow-up calls on a %d-byte input did not return within 20s (hang)", len(c.bytes())), parseFacts{}
+	case <-time.After(120 * time.Second):
+		// the only wall-clock signal in the suite: >10^5 x the normal cost of a parse, and still two
+		// orders of magnitude above the slowest legitimate case (2.7 s) on a machine that is
+		// oversubscribed several times over
+		return violf("Parse and follow-up calls on a %d-byte input did not return within 120s (hang)", len(c.bytes())), parseFacts{}
 	}
 }
 
